@@ -266,3 +266,77 @@ def esc_seam_values(L, rng, n=3):
         except Exception:
             pass
     return out
+
+
+# --------------------------------------------------------------------------
+# bounded-exhaustive ("small scope") enumeration
+# --------------------------------------------------------------------------
+SS_TEXT = 'abcd'
+SS_CODES = ['31', '34', '1']          # two conflicting foreground colours and one independent effect
+
+
+def ss_ranges(n=len(SS_TEXT)):
+    return [(a, b) for a in range(n) for b in range(a + 1, n + 1)]
+
+
+def ss_specs():
+    return [(c, a, b, top) for c in SS_CODES for (a, b) in ss_ranges() for top in (True, False)]
+
+
+def small_scope_values(L, max_applies=2, shard=0, nshards=1, cls=None):
+    """EVERY value obtainable from AnsiString('abcd') by up to `max_applies` apply_formatting calls with a setting
+    from {red, blue, bold}, any non-empty range and either topmost value (60 one-apply, 3600 two-apply values),
+    dealt round-robin over the shards.  Yields (value, description)."""
+    specs = ss_specs()
+    k = 0
+    for s1 in specs:
+        seqs = [[s1]]
+        if max_applies >= 2:
+            seqs += [[s1, s2] for s2 in specs]
+        for seq in seqs:
+            k += 1
+            if k % nshards != shard:
+                continue
+            v = L.AnsiString(SS_TEXT)
+            for c, a, b, top in seq:
+                v.apply_formatting(c, a, b, topmost=top)
+            if cls is not None and cls is not L.AnsiString:
+                v = cls(v)
+            yield v, seq
+
+
+def small_scope_on(ctx, tier):
+    """(max_applies) for this tier; records the scope in evidence"""
+    m = 2 if tier == 'thorough' else 1
+    ctx.extra['small_scope'] = ('exhaustive over text %r x up to %d apply_formatting calls with codes %s x all %d '
+                                'non-empty ranges x topmost in {True, False}' % (SS_TEXT, m, SS_CODES, len(ss_ranges())))
+    return m
+
+
+def stack_values(L, rng, shard=0, nshards=1):
+    """stacks of settings of ONE effect group whose values repeat (X,Y,X / X,X,Y / X,clear,X ...) over the whole
+    text, with 0..4 settings of other groups ending (or starting) together at an index in the middle - the
+    situations in which the renderer chooses between its reset-and-re-emit form and the per-effect difference."""
+    groups = sorted(GROUP_CODES)
+    k = 0
+    for g in groups:
+        ap, cl = GROUP_CODES[g]
+        x = ap[0]
+        y = ap[1] if len(ap) > 1 else cl
+        others = [o for o in groups if o != g]
+        for pat in ([x, y, x], [x, x, y], [y, x, x, y], [x, cl, x], [x, y], [cl, x, cl]):
+            for j in range(0, 5):
+                for where in ('end-together', 'start-together'):
+                    k += 1
+                    if k % nshards != shard:
+                        continue
+                    s = L.AnsiString('abcdef')
+                    for c in pat:
+                        s.apply_formatting(c, 0, 6)
+                    for og in rng.sample(others, j):
+                        oc = GROUP_CODES[og][0][0]
+                        if where == 'end-together':
+                            s.apply_formatting(oc, 0, 3)
+                        else:
+                            s.apply_formatting(oc, 3, 6)
+                    yield s
